@@ -31,6 +31,16 @@ def ddmin(items, test):
     return items
 
 
+def _drop_orphan_crashes(c, ids):
+    """a crash point whose operation was deleted goes with it (ids of automatic reopens are '<op id>.r')"""
+    for name in ("crash", "crash2"):
+        cr = c.get(name)
+        if cr and cr["op"] not in ids and str(cr["op"]).split(".")[0] not in {str(i) for i in ids}:
+            c[name] = None
+    if c.get("crash") is None and c.get("crash2") is not None:
+        c["crash"], c["crash2"] = c["crash2"], None
+
+
 class Shrinker:
     def __init__(self, rec, clause, evaluate, budget=400, choices_of=None):
         """evaluate(rec) -> clause string of the violation found, or None.
@@ -122,9 +132,14 @@ class Shrinker:
     # ------------------------------------------------------------- passes
     def drop_crash_and_faults(self):
         b = self.best
+        if b.get("crash2"):
+            c = _clone(b)
+            c["crash2"] = None
+            self._try(c)
+        b = self.best
         if b.get("crash"):
             c = _clone(b)
-            c["crash"] = None
+            c["crash"], c["crash2"] = c.get("crash2"), None
             self._try(c)
         if self.best.get("faults"):
             def test(fs):
@@ -151,16 +166,14 @@ class Shrinker:
             c["ops"] = ops
             ids = {o["id"] for o in ops}
             c["faults"] = [f for f in c.get("faults", []) if f["op"] in ids]
-            if c.get("crash") and c["crash"]["op"] not in ids:
-                c["crash"] = None
+            _drop_orphan_crashes(c, ids)
             return self._fails(c)
         ops = ddmin(self.best["ops"], test)
         c = _clone(self.best)
         c["ops"] = ops
         ids = {o["id"] for o in ops}
         c["faults"] = [f for f in c.get("faults", []) if f["op"] in ids]
-        if c.get("crash") and c["crash"]["op"] not in ids:
-            c["crash"] = None
+        _drop_orphan_crashes(c, ids)
         self.best = c
 
     def shrink_requests(self):
